@@ -180,6 +180,8 @@ def run(ctx):
         "threads, sockets, socket timeouts and the TCP backlog are the runtime: they appear in the model as environment events",
         "one request per connection (wsgiref closes after the response)",
         "the application handler terminates (a handler that never returns keeps its slot; serve() then never returns)",
+        "the sockets serve() waits on (worker socket pairs, shutdown socket) are blocking: monitored at every select call "
+        "(gettimeout() is None, i.e. nobody changed the process-wide socket default) and end-to-end for every auth back-end",
     ]
     ctx.level = "proof"
     ctx.prove()
@@ -280,6 +282,27 @@ def run(ctx):
         for f in res.get("fail", []):
             report(ctx, seen, f.get("what"), dict(kind="silent", cfg=job["cfg"], phases=job["phases"], seed=job["seed"],
                                                   failures=res.get("fail"), steps=res.get("steps")))
+    # ---------------------------------------------------------------- every auth back-end x login history x shutdown in flight
+    from radicale import auth as _auth
+    ajobs = [dict(kind="authsweep", cfg=dict(max_conn=4, timeout=30, max_len=0, listeners=1, nmax=6, auth_type=t),
+                  seed=ctx.rng.randrange(10 ** 6)) for t in _auth.INTERNAL_TYPES]
+    for job, res in zip(ajobs, x_c20.run_jobs(ajobs, ctx.scratch(), procs=len(ajobs))):
+        t = job["cfg"]["auth_type"]
+        if res.get("driver_error"):
+            ctx.obligation("driver-ran:authsweep:%s" % t, False, res.get("inconclusive", ""))
+            continue
+        if res.get("unavailable"):
+            ctx.count("authsweep:unavailable:%s" % t)
+            ctx.notes.append("auth back-end %s not exercised: %s" % (t, res["unavailable"][:120]))
+            continue
+        if res.get("inconclusive"):
+            ctx.notes.append("inconclusive authsweep scenario (%s): %s" % (t, res["inconclusive"][:200]))
+            continue
+        ctx.case(("authsweep", t), nontrivial=True)
+        ctx.count("authsweep:%s" % t)
+        for f in res.get("fail", []):
+            report(ctx, seen, f.get("what"), dict(kind="authsweep", cfg=job["cfg"], seed=job["seed"], failures=res.get("fail"),
+                                                  steps=res.get("steps")), key="authsweep:" + f.get("what", "")[:30])
     # ---------------------------------------------------------------- exit signals against the real process (python -m radicale)
     sigjobs = [dict(kind="signals", inflight=True, signals=["TERM", second], gap=0.2) for second in ("TERM", "INT", "HUP")]
     sigjobs += [dict(kind="signals", inflight=True, signals=["INT", "INT"], gap=0),
@@ -335,7 +358,7 @@ def run(ctx):
 
 def replay(ctx, path):
     rp = json.load(open(path))["replay"]
-    if rp.get("kind") in ("realgate", "silent", "neglen", "signals"):
+    if rp.get("kind") in ("realgate", "silent", "neglen", "signals", "authsweep"):
         job = dict(rp)
         job.pop("result", None)
         job.pop("witness", None)
